@@ -124,12 +124,29 @@ func replayInstall(c *core.Ctx, lfsBin string, b *installBehaviour, idx int) (*c
 			}
 		}
 	}
+	// where a scope keeps its custom values is a concretisation-only dimension: written in the scope's own
+	// file, or in a file that one includes ([include] path = ...), as people do for machine-local settings
+	viaInclude := (b.hash/17)%2 == 1
 	for _, sc := range scopes {
+		incFile := filepath.Join(root, "included-by-"+sc+".gitconfig")
+		usedInclude := false
 		for _, k := range keys {
 			if v, ok := cfgValues[k][b.Cfg0[sc][k]]; ok {
+				if viaInclude && b.Cfg0[sc][k] == "custom" {
+					if r := env.Git(repo, "config", "--file", incFile, "filter.lfs."+k, v); !r.OK() {
+						return nil, fmt.Errorf("config: %s", r.All())
+					}
+					usedInclude = true
+					continue
+				}
 				if r := env.Git(repo, "config", "--"+sc, "filter.lfs."+k, v); !r.OK() {
 					return nil, fmt.Errorf("config: %s", r.All())
 				}
+			}
+		}
+		if usedInclude {
+			if r := env.Git(repo, "config", "--"+sc, "include.path", incFile); !r.OK() {
+				return nil, fmt.Errorf("config: %s", r.All())
 			}
 		}
 	}
@@ -146,7 +163,7 @@ func replayInstall(c *core.Ctx, lfsBin string, b *installBehaviour, idx int) (*c
 		return "other", by
 	}
 	classifyCfg := func(sc, k string) (string, string) {
-		r := env.Git(repo, "config", "--"+sc, "--get", "filter.lfs."+k)
+		r := env.Git(repo, "config", "--"+sc, "--includes", "--get", "filter.lfs."+k)
 		if !r.OK() {
 			return "unset", ""
 		}
@@ -406,6 +423,6 @@ func init() {
 		for i := 0; i < len(bs); i += len(bs)/4 + 1 {
 			c.Sample(json.RawMessage(bs[i].raw))
 		}
-		c.Assume("scopes = the user's global configuration (private HOME), --local and --worktree (extensions.worktreeConfig on) plus the hooks of one repository; --system/--file scopes, linked worktrees, core.hooksPath, symlinked or non-executable hooks and the implicit installation by other commands are not yet modelled; an empty hook file is treated like an absent one")
+		c.Assume("scopes = the user's global configuration (private HOME), --local and --worktree (extensions.worktreeConfig on) plus the hooks of one repository; --system/--file scopes, linked worktrees, custom values sit in the scope's own file or in a file it includes; core.hooksPath, symlinked or non-executable hooks and the implicit installation by other commands are not yet modelled; an empty hook file is treated like an absent one")
 	}
 }
